@@ -506,32 +506,29 @@ func checkKeyFormat(c *Ctx, p *core.Prog, rule string) {
 	if !c.R.Anchor(gen != nil, "v2.(*Classifier).generateDocName") {
 		return
 	}
-	// generateDocName: Sprintf("%s%c%s%c%s", category, sep, name, sep, variant)
-	ok, why := false, "no fmt.Sprintf call"
-	for _, call := range core.CallsIn(gen) {
-		if core.StaticCalleeName(call.Common()) != "fmt.Sprintf" {
+	// generateDocName builds category <sep> name <sep> variant (fmt.Sprintf or concatenation)
+	ok, why := false, "cannot read how the key is built"
+	for _, b := range gen.Blocks {
+		ret, isRet := b.Instrs[len(b.Instrs)-1].(*ssa.Return)
+		if !isRet || len(ret.Results) != 1 {
 			continue
 		}
-		f, _ := core.ConstString(call.Common().Args[0])
-		if f != "%s%c%s%c%s" {
-			why = "format is " + f
-			break
+		pieces, okP := keyPieces(gen, ret.Results[0])
+		if !okP {
+			why = "the key expression has an unsupported shape: " + ret.Results[0].String()
+			continue
 		}
-		els := varargElems(call.Common().Args[1])
-		if len(els) != 5 {
-			why = "unexpected argument count"
-			break
-		}
-		ok, why = true, "format %s%c%s%c%s with (category, sep, name, sep, variant)"
-		for i, want := range []int{1, -1, 2, -1, 3} { // parameter index (receiver = 0), -1 = separator
-			v := unwrapIface(els[i])
-			if want < 0 {
-				if !isPathSepConst(v) {
-					ok, why = false, fmt.Sprintf("argument %d is not os.PathSeparator", i)
-				}
-			} else if v != gen.Params[want] {
-				ok, why = false, fmt.Sprintf("argument %d is not parameter %s", i, gen.Params[want].Name())
+		want := []string{"P1", "SEP", "P2", "SEP", "P3"}
+		ok, why = len(pieces) == len(want), fmt.Sprintf("key pieces %v", pieces)
+		for k := range want {
+			if ok && pieces[k] != want[k] {
+				ok = false
 			}
+		}
+		if ok {
+			why = "category <pathsep> name <pathsep> variant"
+		} else {
+			why = fmt.Sprintf("the key is built as %v, expected [category sep name sep variant] with the path separator", pieces)
 		}
 	}
 	c.R.Check(ok, rule, "generateDocName formats category, name, variant in that order with the path separator", p.Pos(gen.Pos()), why, why)
@@ -668,4 +665,84 @@ func decoderShape(fn *ssa.Function, idx int64) (bool, string) {
 		}
 	}
 	return false, "no return"
+}
+
+// keyPieces flattens the expression that builds a docs key into pieces: "P<n>" for parameter n
+// (receiver = 0), "SEP" for the path separator, or the literal text. Supports fmt.Sprintf with
+// %s/%c/%v verbs and string concatenation.
+func keyPieces(fn *ssa.Function, v ssa.Value) ([]string, bool) {
+	classify := func(x ssa.Value) (string, bool) {
+		x = unwrapIface(core.Unspill(x))
+		for i, prm := range fn.Params {
+			if x == ssa.Value(prm) {
+				return fmt.Sprintf("P%d", i), true
+			}
+		}
+		if isPathSepConst(x) {
+			return "SEP", true
+		}
+		if sv, ok := core.ConstString(x); ok {
+			if sv == "/" || sv == "\\" {
+				return "SEP", true
+			}
+			return sv, true
+		}
+		if cv, ok := x.(*ssa.Convert); ok && isPathSepConst(cv.X) {
+			return "SEP", true
+		}
+		return "", false
+	}
+	switch x := v.(type) {
+	case *ssa.BinOp:
+		if x.Op != token.ADD {
+			return nil, false
+		}
+		l, ok1 := keyPieces(fn, x.X)
+		r, ok2 := keyPieces(fn, x.Y)
+		if !ok1 || !ok2 {
+			return nil, false
+		}
+		return append(l, r...), true
+	case *ssa.Call:
+		if core.StaticCalleeName(&x.Call) != "fmt.Sprintf" {
+			return nil, false
+		}
+		f, ok := core.ConstString(x.Call.Args[0])
+		if !ok {
+			return nil, false
+		}
+		els := varargElems(x.Call.Args[1])
+		var out []string
+		ai := 0
+		for k := 0; k < len(f); k++ {
+			if f[k] == '%' && k+1 < len(f) {
+				switch f[k+1] {
+				case 's', 'c', 'v':
+					if ai >= len(els) {
+						return nil, false
+					}
+					pc, ok := classify(els[ai])
+					if !ok {
+						return nil, false
+					}
+					out = append(out, pc)
+					ai++
+					k++
+					continue
+				}
+				return nil, false
+			}
+			// literal text
+			if f[k] == '/' || f[k] == '\\' {
+				out = append(out, "SEP")
+			} else {
+				out = append(out, string(f[k]))
+			}
+		}
+		return out, ai == len(els)
+	}
+	if pc, ok := classify(v); ok {
+		return []string{pc}, true
+	}
+	return nil, false
 }
